@@ -63,6 +63,8 @@ class Sub(Harness):
         S.append(dict(solver="spider", n=1, npts=1))
         if tier == "thorough":
             S.append(dict(solver="spider", n=1, npts=2))
+        # (tried and dropped: seeded concrete n = 3 instances with only the radius symbolic, to reach the improve_tcg
+        # rotations; every sqrt of _alpha_tr adds a variable, no path completed within 200 s under nlsat)
         if tier == "thorough":
             for gi in range(len(GRID2)):
                 for solver in ("tangential", "ctangential", "normal", "cauchy", "spider"):
@@ -75,6 +77,8 @@ class Sub(Harness):
         e, M, np = ctx.e, ctx.M, ctx.np
         n = shape["n"]
         O, G = M.optim, M.geometry
+        if shape.get("radius_only"):
+            return self._run_instance(ctx, shape)
         xl = [e.fresh_in(f"xl{i}", -1e6, 0.0, kinds=(FIN, NINF)) for i in range(n)]
         xu = [e.fresh_in(f"xu{i}", 0.0, 1e6, kinds=(FIN, PINF)) for i in range(n)]
         delta = e.fresh_in("delta", 1e-6, 1e6)
@@ -132,6 +136,43 @@ class Sub(Harness):
                 xpt = [[1.0, 0.0, -0.5], [0.0, 2.0, 0.5]]
             out["xpt"] = xpt
             step = G.spider_geometry(const, garr, curv, ctx.arr(xpt), ctx.arr(xl), ctx.arr(xu), delta, False)
+        out["step"] = list(_np.asarray(step, dtype=object).ravel())
+        return out
+
+    def _run_instance(self, ctx, shape):
+        import random
+        e, M, np = ctx.e, ctx.M, ctx.np
+        O = M.optim
+        n = shape["n"]
+        rng = random.Random(9000 + 31 * shape["inst"] + {"tangential": 0, "ctangential": 1, "normal": 2}[shape["solver"]])
+        q8 = lambda lo, hi: round(rng.uniform(lo, hi) * 8) / 8
+        g = [q8(-1, 1) for _ in range(n)]
+        H = [[0.0] * n for _ in range(n)]
+        for i in range(n):
+            for j in range(i, n):
+                H[i][j] = H[j][i] = q8(-1.5, 1.5)
+        xl = [rng.choice([-INF, 0.0, -q8(0.125, 1.5), -q8(0.125, 1.5)]) for _ in range(n)]
+        xu = [rng.choice([INF, 0.0, q8(0.125, 1.5), q8(0.125, 1.5)]) for _ in range(n)]
+        m = rng.choice([1, 2]) if shape["solver"] != "tangential" else 0
+        aub = [[q8(-1, 1) for _ in range(n)] for _ in range(m)]
+        bub = [rng.choice([0.0, q8(0.125, 1.0)]) for _ in range(m)]
+        aeq = [[q8(-1, 1) for _ in range(n)]] if shape["solver"] != "tangential" and rng.random() < 0.3 else []
+        beq = [q8(-1, 1) for _ in aeq]
+        delta = e.fresh_in("delta", 0.0625, 8.0)
+        out = dict(xl=xl, xu=xu, delta=delta, shape=shape, g=g, H=H, aub=aub, aeq=aeq, bub=bub, beq=beq, const=0.0)
+        garr, Harr = ctx.arr(g), ctx.arr(H)
+        hp = lambda s_: Harr @ s_
+        mk2 = lambda rows: (ctx.arr(rows) if rows else np.zeros((0, n))) if ctx.sym else _np.array(rows, dtype=float).reshape(len(rows), n)
+        if shape["solver"] == "tangential":
+            step = O.tangential_byrd_omojokun(garr, hp, ctx.arr(xl), ctx.arr(xu), delta, False, improve_tcg=True)
+        elif shape["solver"] == "ctangential":
+            step = O.constrained_tangential_byrd_omojokun(garr, hp, ctx.arr(xl), ctx.arr(xu), mk2(aub),
+                                                          ctx.arr(bub) if bub else np.zeros(0), mk2(aeq), delta, False,
+                                                          improve_tcg=True)
+        else:
+            step = O.normal_byrd_omojokun(mk2(aub), ctx.arr(bub) if bub else np.zeros(0), mk2(aeq),
+                                          ctx.arr(beq) if beq else np.zeros(0), ctx.arr(xl), ctx.arr(xu), delta, False,
+                                          improve_tcg=True)
         out["step"] = list(_np.asarray(step, dtype=object).ravel())
         return out
 
